@@ -152,7 +152,7 @@ func (n *decoratorNode) Call(s containerStore) (err error) {
 		}()
 	}
 
-	verifTraceEnter(s, "dec", n)
+	verifTraceEnter(s, "dec", n, n.params, args)
 	results := s.invoker()(reflect.ValueOf(n.dcor), args)
 	if err = n.results.ExtractList(n.s, true /* decorated */, results); err != nil {
 		return err
